@@ -163,6 +163,87 @@ def history_harness(ctx):
               note="a chain A->B, B->C stays a chain whatever the order of the two requests (uses of A go to B, uses of B go to C)")
 
 
+def access_type_harness(ctx):
+    """_sym_expr_access_type (D: instruction sizes and the expression offset are symbolic): the access type is CONTROL_FLOW iff the
+    instruction that CONTAINS the expression's first byte (address <= expr < address + size) is a jump or a call, else CODE_REF;
+    DATA for a data block.  On fixed-width ISAs the expression starts at the first byte of its instruction, so the boundary matters."""
+    import capstone
+    n = ctx.choose(3, "instructions") + 1
+    sizes = [ctx.int("size%d" % i) for i in range(n)]
+    for sz in sizes:
+        ctx.assume(sz >= 1)
+    base = ctx.int("block_address")
+    ctx.assume(base >= 1)
+    off = ctx.int("expression_offset")
+    total = z3.Sum(sizes)
+    ctx.assume(z3.And(off >= 0, off < total))
+    kinds = [ctx.choose(3, "kind%d" % i) for i in range(n)]        # 0 ordinary, 1 jump, 2 call
+
+    class Ins:
+        def __init__(self, a, s, k):
+            self.address, self.size, self.k = SymInt(a), SymInt(s), k
+
+        def group(self, g):
+            return (self.k == 1 and g == capstone.CS_GRP_JUMP) or (self.k == 2 and g == capstone.CS_GRP_CALL)
+    insns, a = [], base
+    for sz, k in zip(sizes, kinds):
+        insns.append(Ins(a, sz, k))
+        a = a + sz
+
+    class Dec:
+        def get_instructions(self, block):
+            return iter(insns)
+    # a CodeBlock whose address is the symbolic base (isinstance(block, gtirb.CodeBlock) must hold)
+    fake = type("CB", (gtirb.CodeBlock,), {"address": property(lambda self: SymInt(base))})(offset=0, size=1)
+    got = RT._sym_expr_access_type(fake, SymInt(off), Dec())
+    ctx.cover("classified")
+    # the instruction containing the byte
+    starts = [base]
+    for sz in sizes[:-1]:
+        starts.append(starts[-1] + sz)
+    cf = z3.Or([z3.And(st <= base + off, base + off < st + sz, z3.BoolVal(k in (1, 2))) for st, sz, k in zip(starts, sizes, kinds)])
+    ctx.prove("sym_expr_access_type/control-flow-iff-the-containing-instruction-is-a-jump-or-call",
+              z3.BoolVal(got == AT.CONTROL_FLOW) == cf if got in (AT.CONTROL_FLOW, AT.CODE_REF) else z3.BoolVal(False))
+    d = gtirb.DataBlock(offset=0, size=4)
+    bi = gtirb.ByteInterval(address=0x1000, size=4, contents=b"\0\0\0\0")
+    d.byte_interval = bi
+    ctx.prove("sym_expr_access_type/data-block-is-a-data-access", z3.BoolVal(RT._sym_expr_access_type(d, 0, Dec()) == AT.DATA))
+
+
+def access_type_replay(clause, model):
+    """native: concrete instruction sizes / offset from the counter-model (plus all small ones) on the real function"""
+    import capstone
+
+    def val(prefix, d):
+        k = [x for x in model if x.startswith(prefix + "!")]
+        return model[k[0]] if k else d
+    cands = [([max(1, val("size%d" % i, 4)) for i in range(3)], max(0, val("expression_offset", 0)))]
+    cands += [([a, b, c], o) for a in (1, 4) for b in (1, 4) for c in (1, 4) for o in range(a + b + c)]
+    for sizes, off in cands:
+        if off >= sum(sizes):
+            continue
+        for kinds in itertools.product((0, 1, 2), repeat=3):
+            class Ins:
+                def __init__(self, a, s, k):
+                    self.address, self.size, self.k = a, s, k
+
+                def group(self, g):
+                    return (self.k == 1 and g == capstone.CS_GRP_JUMP) or (self.k == 2 and g == capstone.CS_GRP_CALL)
+            base, insns, a = 0x1000, [], 0x1000
+            for sz, k in zip(sizes, kinds):
+                insns.append(Ins(a, sz, k))
+                a += sz
+            dec = type("D", (), {"get_instructions": lambda self, b: iter(insns)})()
+            blk = type("CB", (gtirb.CodeBlock,), {"address": property(lambda self: base)})(offset=0, size=1)
+            got = RT._sym_expr_access_type(blk, off, dec)
+            owner = [i for i in insns if i.address <= base + off < i.address + i.size][0]
+            want = AT.CONTROL_FLOW if owner.k in (1, 2) else AT.CODE_REF
+            if got != want:
+                return {"confirmed": True, "instruction sizes": sizes, "instruction kinds (0 ordinary, 1 jump, 2 call)": list(kinds), "expression offset": off,
+                        "observed": got.name, "expected": want.name}
+    return {"confirmed": False, "observed": "native runs satisfy the contract"}
+
+
 def out_edges_harness(ctx):
     """_retarget_out_edges (loop over the block's concrete out-edges; E over edge type x direct x conditional x target x kind of the
     new referent): exactly the Branch / Call edges whose target is the old symbol's referent are moved to the new symbol's referent,
@@ -375,6 +456,8 @@ def bounded(tier, seed):
 
 def jobs(tier="quick", seed=0):
     yield Job("C18/refusals", refusals_harness, kind="D", func="gtirb_rewriting.rewriting:RewritingContext.retarget_symbol_uses")
+    yield Job("C18/sym_expr_access_type", access_type_harness, setup=lambda: shims.installed([RT]), kind="D", func="gtirb_rewriting._modify.retarget:_sym_expr_access_type",
+              expect_cover=("classified",), replay=access_type_replay)
     yield Job("C18/retarget_out_edges", out_edges_harness, kind="E", func="gtirb_rewriting._modify.retarget:_retarget_out_edges")
     yield Job("C18/request-history", history_harness, kind="E", func="gtirb_rewriting.rewriting:RewritingContext.retarget_symbol_uses")
     for name, abi, m in abi_modules():
